@@ -2,12 +2,37 @@
    one s-expression command per line in, one s-expression answer out. *)
 From Coq Require Import String Ascii List ZArith NArith Bool.
 From OL Require Import Sexp PyAst Unparse Config Namespace Lower Cli StrLit KSem Scope.
+From OL Require UnpackNested.
 From OL Require Parse.
 Import ListNotations.
 Open Scope string_scope.
 
 Definition ok (x : sexp) : sexp := L [A "ok"; x].
 Definition bad (why : string) : sexp := L [A "bad"; A why].
+
+(* nested values for the unpacking reference semantics: (a <int>) | (s <value> ...) *)
+Fixpoint nval_of (x : sexp) : option (UnpackNested.val Z) :=
+  match x with
+  | L (A k :: items) =>
+      if String.eqb k "a" then
+        match items with [z] => option_map (UnpackNested.VAtom Z) (z_of z) | _ => None end
+      else if String.eqb k "s" then
+        option_map (UnpackNested.VSeq Z)
+          ((fix go (l : list sexp) : option (list (UnpackNested.val Z)) :=
+              match l with
+              | [] => Some []
+              | y :: r => match nval_of y, go r with Some a, Some b => Some (a :: b) | _, _ => None end
+              end) items)
+      else None
+  | _ => None
+  end.
+Fixpoint sx_nval (v : UnpackNested.val Z) : sexp :=
+  match v with
+  | UnpackNested.VAtom _ z => L [A "a"; sx_z z]
+  | UnpackNested.VSeq _ l => L (A "s" :: map sx_nval l)
+  end.
+Definition sx_binds (bs : UnpackNested.binds Z) : sexp := L (map (fun kv => L [sx_ident (fst kv); sx_nval (snd kv)]) bs).
+Definition top_nsp : nsp := Nsp 0 NGlobal "top" 0 [] [] [] [] [] false false [] [] [].
 
 Definition run_cmd (x : sexp) : sexp :=
   match x with
@@ -40,6 +65,18 @@ Definition run_cmd (x : sexp) : sexp :=
       match expr_of e with
       | Some e' => ok (L (map Parse.sx_pt (Parse.norm (unparse_toks e'))))
       | None => bad "decode-expr"
+      end
+  | L [A "unpack-nested"; t; v] =>
+      (* (what Python's unpacking binds, what the stores emitted by the converter model bind when run in order) *)
+      match expr_of t, nval_of v with
+      | Some t', Some (UnpackNested.VSeq _ l) =>
+          let b := UnpackNested.bind Z t' (UnpackNested.VSeq Z l) in
+          let r := match assign_auto top_nsp [0%nat] t' (Name "V") with
+                   | inl (_ :: stores) => option_map snd (UnpackNested.run Z [(ol "assign" (path_str [0%nat]), l)] stores)
+                   | _ => None
+                   end in
+          ok (L [sx_opt sx_binds b; sx_opt sx_binds r])
+      | _, _ => bad "decode-unpack"
       end
   | L [A "parse-core"; L ts] =>
       match mapM Parse.pt_of ts with
